@@ -54,11 +54,12 @@ RULE = ("a case is one (history of public calls, embedding) re-executed on the r
         "produced or modified an object; distinct by (history, embedding) resp. (program id, call number)")
 
 GEO = W.GEO
-ALGEBRA = ("neg", "pos", "abs", "add", "mul", "mulnum", "comp", "lshift")
+ALGEBRA = ("neg", "pos", "abs", "add", "mul", "mulnum", "comp", "lshift", "sub", "dot", "cross", "norm", "orientation")
 SEL = ("selplane", "selrange", "getsub", "getregion", "pad", "resample")
 PERSIST = ("h5", "ovf", "vtk", "xarray")
 ACTION_OF = {"translate": "Translate", "scale": "Scale", "mkfield": "MkField", "neg": "Neg", "pos": "Pos", "abs": "Abs", "add": "Add",
-             "mul": "Mul", "mulnum": "MulNum", "comp": "Comp", "lshift": "LShift", "diff": "Diff", "mutatevalid": "MutateValid",
+             "mul": "Mul", "sub": "Sub", "dot": "Dot", "cross": "Cross", "norm": "Norm", "orientation": "Orientation", "integrate": "Integrate",
+             "fromfield": "FromField", "setsub": "SetSub", "mulnum": "MulNum", "comp": "Comp", "lshift": "LShift", "diff": "Diff", "mutatevalid": "MutateValid",
              "updateconst": "UpdateConst", "setarray": "SetArray", "selplane": "SelPlane", "selrange": "SelRange", "getsub": "GetSub",
              "getregion": "GetRegion", "pad": "Pad", "resample": "Resample", "h5": "H5", "ovf": "Ovf", "vtk": "Vtk", "xarray": "Xarray"}
 ALL_ACTIONS = sorted(set(ACTION_OF.values()) | {"MeshRotate90", "FieldRotate90", "SetValidArray", "SetValidNorm", "SetValidNone"})
@@ -99,7 +100,11 @@ def clause_of(aspect, c, is_result):
         if aspect in ("valid", "values", "labels", "mapping") and c["tg"] == "self":
             return "DF_PositionsKept"
         return "DF_InplaceEqualsCopy" if c["ip"] else "DF_OperandsUnchanged"
-    if not is_result and op not in ("setvalid", "mutatevalid", "updateconst", "setarray"):
+    if op == "setsub":
+        return "DF_SetSub"
+    if op == "integrate" and is_result:
+        return "DF_Integrate"
+    if not is_result and op not in ("setvalid", "mutatevalid", "updateconst", "setarray", "fromfield"):
         return "DF_OperandsUnchanged"
     if op in SEL:
         if aspect in ("geometry", "unitsdims", "counts"):
@@ -111,7 +116,7 @@ def clause_of(aspect, c, is_result):
         return "DF_Persist"
     if op in ("setvalid", "mutatevalid"):
         return "DF_SetValid"
-    if op in ("updateconst", "setarray"):
+    if op in ("updateconst", "setarray", "fromfield"):
         return "DF_Update"
     if op in ALGEBRA or op == "diff":
         return "DF_ValidityRule" if aspect == "valid" else "DF_Cellwise"
@@ -448,17 +453,17 @@ for _op in ALGEBRA:
 for _op in SEL:
     FAMILY[_op] = "sel"
 FAMILY.update({"diff": "diff", "setvalid": "valid", "mutatevalid": "valid", "updateconst": "update", "setarray": "update",
-               "mkfield": "update", "h5": "h5", "ovf": "ovf", "vtk": "vtk", "xarray": "xarray"})
-FAMILY_OWNER = {"geo": {"C13"}, "algebra": {"C03"}, "sel": {"C07"}, "diff": {"C08"}, "valid": {"C08"}, "update": {"C02"},
+               "mkfield": "update", "fromfield": "update", "integrate": "integrate", "setsub": "setsub", "h5": "h5", "ovf": "ovf", "vtk": "vtk", "xarray": "xarray"})
+FAMILY_OWNER = {"geo": {"C13"}, "algebra": {"C03"}, "sel": {"C07"}, "diff": {"C08"}, "valid": {"C08"}, "update": {"C02"}, "integrate": {"C06"}, "setsub": {"C14"},
                 "h5": {"C10"}, "ovf": {"C09"}, "vtk": {"C16"}, "xarray": {"C17"}}
 CLAUSE_OWNER = {
     "DF_RegionNormal": {"C13"}, "DF_MeshNormal": {"C13"}, "DF_FieldShapes": {"C13"}, "DF_RootsLive": {"C13"},
     "DF_InplaceEqualsCopy": {"C13"}, "DF_InplaceReturnsSelf": {"C13"}, "DF_AffineExact": {"C13"},
     "DF_SubregionsWellFormed": {"C14"}, "DF_SelSubregions": {"C14"},
     "DF_OwnValidity": {"C08"}, "DF_ValidityRule": {"C08"}, "DF_SetValid": {"C08"},
-    "DF_Cellwise": {"C03"}, "DF_Update": {"C02"}, "DF_CellAligned": {"C07"},
+    "DF_Cellwise": {"C03"}, "DF_Update": {"C02"}, "DF_CellAligned": {"C07"}, "DF_Integrate": {"C06"}, "DF_SetSub": {"C14"},
 }
-OWNERS = ("C02", "C03", "C07", "C08", "C09", "C10", "C12", "C13", "C14", "C16", "C17")
+OWNERS = ("C02", "C03", "C06", "C07", "C08", "C09", "C10", "C12", "C13", "C14", "C16", "C17")
 
 
 def owners_of(key):
